@@ -24,6 +24,8 @@ PROGRAMS = [
     'fun shadow(List: Int, Some: Int): Int { List + Some }\nprintln(string_repr(shadow(1, 2)))\n',
     'struct Float {}\nstruct Int { x: String }\nlet f = Float{}\n',
     'enum Option { Some(Int), None }\nlet o = Some(1)\n',
+    # a type hint cut off right after `<` at the end of the text (no trailing newline)
+    'fun f(): List<', 'fun f(x: List<', 'let x: Foo<', 'struct Foo { x: List<', 'enum Foo { A(List<', 'fun f(): Fun<(Int), List<', 'let x: (Int, Option<', 'method m(this: List<',
     # assignment to names that are not local variables
     'fun g() {\n  println = 1\n  undefined_name = 2\n  undefined_name += 1\n}\n',
     'let top = 1\nfun set_top() { top = 2  top += 1 }\nset_top()\nprintln(string_repr(top))\n',
